@@ -111,10 +111,8 @@ Fixpoint expect (s : mstate) (pend : pendl) (ops : list mop) : list DemuxerData 
 Definition streams_dom (s : mstate) : Prop :=
   Forall (fun e => stream_in_dom D e /\ es_pid (spid e)) (ms_streams s).
 
-Definition op_ok (s : mstate) (pend : pendl) (o : mop) (s' : mstate) (p : part) : Prop :=
+Definition op_ok (s : mstate) (o : mop) (s' : mstate) (p : part) : Prop :=
   pa_res p <> Panic /\ streams_dom s' /\
-  (* a PID that has carried data is not configured again after its removal *)
-  (forall y, es_find y (ms_es s) = None -> es_find y (ms_es s') <> None -> aget pend y = None) /\
   match o with
   | MWritePacket _ => False
   | MWriteData d =>
@@ -127,10 +125,14 @@ Fixpoint history_ok (s : mstate) (pend : pendl) (ops : list mop) : Prop :=
   match ops with
   | [] => True
   | o :: r => let '(s', p) := mux_step_part s o in
-              op_ok s pend o s' p /\ history_ok s' (snd (step_out s pend o p)) r
+              op_ok s o s' p /\ history_ok s' (snd (step_out s pend o p)) r
   end.
 
 (* ---------------- the invariant ---------------- *)
+
+(* the counter the next payload packet on y will follow: the stream's, or the one a removed stream carries on with *)
+Definition next_cc (y : Z) (s : mstate) : option wrappingCounter :=
+  match es_cc y s with Some c => Some c | None => rm_cc y s end.
 
 Definition pid_ok (s : mstate) (pl : pool) (y : Z) (o : option DemuxerData) : Prop :=
   match o with
@@ -140,7 +142,7 @@ Definition pid_ok (s : mstate) (pl : pool) (y : Z) (o : option DemuxerData) : Pr
       exists q' pe, qof pl y = q' ++ [pe] /\ has_payload pe = true /\ (no_disc_flag pe \/ pusi pe = true) /\
         (forall pm', pm_mem pm' y = false ->
            parse_data full_parsers None pm' (qof pl y) = Ok [dat] /\ pm_after pm' [dat] = pm') /\
-        (forall c, es_cc y s = Some c -> cc_of pe = cc_val c /\ cc_val c <= 15)
+        (exists c, next_cc y s = Some c /\ cc_of pe = cc_val c /\ cc_val c <= 15)
   end.
 
 Record inv (s : mstate) (pend : pendl) (pl : pool) (pm : pmap) : Prop := {
@@ -159,25 +161,29 @@ Proof. unfold es_pid, C_PIDPAT. intros [H1 H2]. split; [lia|exact H2]. Qed.
 Lemma es_cc_none y s : es_cc y s = None <-> es_find y (ms_es s) = None.
 Proof. unfold es_cc. destruct (es_find y (ms_es s)); cbn; split; congruence. Qed.
 
-(* a call that emits no payload packet on y and does not newly configure y leaves y's counter where it was *)
-Lemma cc_link_keep s o s' p y : ms_inv s -> mux_step_part s o = (s', p) -> pa_res p <> Panic -> op_entry_ok o ->
+(* a call that emits no payload packet on y leaves the counter y carries on with where it was (removal and
+   re-addition included: removedCCs) *)
+Lemma next_cc_keep s o s' p y : ms_inv s -> mux_step_part s o = (s', p) -> pa_res p <> Panic -> op_entry_ok o ->
   y <> C_PIDPAT -> y <> C_pmtStartPID -> payload_ccs y (muxer_pkts o p) = [] ->
-  (es_find y (ms_es s) = None -> es_find y (ms_es s') = None) ->
-  forall c, es_cc y s' = Some c -> es_cc y s = Some c.
+  next_cc y s <> None -> next_cc y s' = next_cc y s.
 Proof.
-  intros Hinv Hstep Hnp Hen H1 H2 Hcc Hnew c Hc.
+  intros Hinv Hstep Hnp Hen H1 H2 Hcc Hnn. unfold next_cc in *.
   destruct (es_cc y s) as [c0|] eqn:E0.
-  - destruct (step_es_effect s o s' p y c0 Hinv Hstep Hnp Hen H1 H2 E0) as [(_ & _ & Hn)|(_ & k & Hk & Hs')]; [congruence|].
-    rewrite Hcc in Hk. symmetry in Hk. apply ccs_from_nil in Hk. subst k. cbn [iter_inc] in Hs'. congruence.
-  - apply es_cc_none in E0. apply Hnew in E0. apply es_cc_none in E0. congruence.
+  - destruct (step_es_effect s o s' p y c0 Hinv Hstep Hnp Hen H1 H2 E0) as [(_ & _ & Hn & Hr)|(_ & k & Hk & Hs')].
+    + rewrite Hn, Hr. reflexivity.
+    + rewrite Hcc in Hk. symmetry in Hk. apply ccs_from_nil in Hk. subst k. cbn [iter_inc] in Hs'. rewrite Hs'. reflexivity.
+  - destruct (step_es_none s o s' p y Hinv Hstep Hnp Hen H1 H2 E0) as (_ & _ & [(Hn & Hr)|Hs']).
+    + rewrite Hn, Hr. reflexivity.
+    + rewrite Hs'. destruct (rm_cc y s); [reflexivity|congruence].
 Qed.
 
 Lemma pid_ok_keep s pl s' pl' y o :
-  pid_ok s pl y o -> qof pl' y = qof pl y -> (forall c, es_cc y s' = Some c -> es_cc y s = Some c) -> pid_ok s' pl' y o.
+  pid_ok s pl y o -> qof pl' y = qof pl y -> (next_cc y s <> None -> next_cc y s' = next_cc y s) -> pid_ok s' pl' y o.
 Proof.
   intros H Hq Hc. destruct o as [dat|]; cbn [pid_ok] in *; [|rewrite Hq; exact H].
-  destruct H as (Hy & q' & pe & E & Hh & Hd & Hp & Hl). split; [exact Hy|]. exists q', pe. rewrite Hq.
-  repeat split; try assumption; try (apply Hp; assumption); apply Hl, Hc; assumption.
+  destruct H as (Hy & q' & pe & E & Hh & Hd & Hp & c & Hl & Hl'). split; [exact Hy|]. exists q', pe. rewrite Hq.
+  split; [exact E|]. split; [exact Hh|]. split; [exact Hd|]. split; [exact Hp|].
+  exists c. split; [rewrite Hc; [exact Hl|congruence]|exact Hl'].
 Qed.
 
 (* ---------------- the tables through the pool ---------------- *)
@@ -255,19 +261,17 @@ Qed.
 (* ---------------- calls that emit nothing ---------------- *)
 
 Lemma inv_quiet s pend pl pm o s' p :
-  inv s pend pl pm -> mux_step_part s o = (s', p) -> op_ok s pend o s' p -> op_entry_ok o -> pa_pkts p = [] ->
+  inv s pend pl pm -> mux_step_part s o = (s', p) -> op_ok s o s' p -> op_entry_ok o -> pa_pkts p = [] ->
   inv s' pend pl pm.
 Proof using.
-  intros [Hms Hst Hso Hk Hpm Htab Hpids] Hstep (Hnp & Hst' & Hfresh & Hop) Hen Hnil.
+  intros [Hms Hst Hso Hk Hpm Htab Hpids] Hstep (Hnp & Hst' & Hop) Hen Hnil.
   constructor; try assumption.
   - apply (step_inv s o s' p Hms Hstep Hnp Hen).
   - intros y. specialize (Hpids y). destruct (aget pend y) as [dat|] eqn:Eg; [|exact Hpids].
     apply (pid_ok_keep s pl s' pl y (Some dat) Hpids eq_refl).
     destruct Hpids as (Hy & _). destruct (es_pid_not_tables y Hy) as [H1 H2].
-    apply (cc_link_keep s o s' p y Hms Hstep Hnp Hen H1 H2).
-    + destruct o; cbn [muxer_pkts]; try reflexivity; rewrite Hnil; reflexivity.
-    + intros Hn. destruct (es_find y (ms_es s')) eqn:E; [|reflexivity]. exfalso.
-      assert (Hx : aget pend y = None) by (apply Hfresh; [exact Hn|congruence]). congruence.
+    apply (next_cc_keep s o s' p y Hms Hstep Hnp Hen H1 H2).
+    destruct o; cbn [muxer_pkts]; try reflexivity; rewrite Hnil; reflexivity.
 Qed.
 
 (* ---------------- the tables of a call ---------------- *)
@@ -326,14 +330,14 @@ Qed.
 (* ---------------- one call ---------------- *)
 
 Theorem step_feed s pend pl pm o s' p :
-  inv s pend pl pm -> mux_step_part s o = (s', p) -> op_ok s pend o s' p ->
+  inv s pend pl pm -> mux_step_part s o = (s', p) -> op_ok s o s' p ->
   exists pl' pm',
     feed full_parsers pl pm (map obs_pkt (pa_pkts p)) = Some (pl', pm', fst (step_out s pend o p)) /\
     inv s' (snd (step_out s pend o p)) pl' pm' /\
     Forall mux_wf (pa_pkts p) /\
     (length (fst (step_out s pend o p)) + length (snd (step_out s pend o p)) <= length pend + length (pa_pkts p))%nat.
 Proof using D_parse D_write D_nil D_size.
-  intros Hinv Hstep Hop. pose proof Hop as (Hnp & Hst' & Hfresh & Hcase).
+  intros Hinv Hstep Hop. pose proof Hop as (Hnp & Hst' & Hcase).
   assert (Hen : op_entry_ok o) by (destruct o; try exact I; apply Hcase).
   assert (Hnwp : match o with MWritePacket _ => False | _ => True end) by (destruct o; try exact I; exact Hcase).
   pose proof Hinv as [Hms Hst Hso Hk Hpm [Ht0 Ht1] Hpids].
@@ -374,10 +378,8 @@ Proof using D_parse D_write D_nil D_size.
       * intros y. specialize (Hpids y). destruct (aget pend y) as [dat|] eqn:Eg; [|cbn [pid_ok] in *; rewrite Hq2; exact Hpids].
         apply (pid_ok_keep s pl s' pl2 y (Some dat) Hpids (Hq2 y)).
         destruct Hpids as (Hy & _). destruct (es_pid_not_tables y Hy) as [H1 H2].
-        apply (cc_link_keep s MWriteTables s' p y Hms Hstep Hnp I H1 H2).
-        -- cbn [muxer_pkts]. rewrite Hp, payload_ccs_pair by assumption. reflexivity.
-        -- intros Hn. destruct (es_find y (ms_es s')) eqn:E; [|reflexivity]. exfalso.
-           assert (Hx : aget pend y = None) by (apply Hfresh; [exact Hn|congruence]). congruence.
+        apply (next_cc_keep s MWriteTables s' p y Hms Hstep Hnp I H1 H2).
+        cbn [muxer_pkts]. rewrite Hp, payload_ccs_pair by assumption. reflexivity.
     + rewrite Hp. constructor; [exact Wa|constructor; [exact Wb|constructor]].
     + rewrite (tables_out_some s (pa_pkts p) _ _ [] Hp Hsw), Hp. cbn [length]. lia.
   - (* WriteData *)
@@ -406,8 +408,9 @@ Proof using D_parse D_write D_nil D_size.
       rewrite (feed_filter_payload full_parsers _ _ _ U4), U5.
       assert (Hpend : pending_ok full_parsers pm0 x c0 (qof pl0 x) (match aget pend x with Some prev => [prev] | None => [] end)).
       { specialize (Hpids x). rewrite Hq0. destruct (aget pend x) as [prev|]; cbn [pid_ok] in Hpids.
-        - right. destruct Hpids as (_ & q' & pe & Hq & Hh & Hd & Hp & Hl).
-          destruct (Hl c0 ltac:(unfold es_cc; rewrite Hfind; reflexivity)) as [Hl1 Hl2].
+        - right. destruct Hpids as (_ & q' & pe & Hq & Hh & Hd & Hp & c & Hl & Hl1 & Hl2).
+          assert (c = c0) as ->.
+          { unfold next_cc, es_cc in Hl. fold x in Hfind. rewrite Hfind in Hl. cbn [option_map] in Hl. injection Hl as <-. reflexivity. }
           destruct (Hp pm0 Hpmx) as [Hp1 Hp2].
           exists q', pe. repeat split; assumption.
         - left. split; [exact Hpids|reflexivity]. }
@@ -431,8 +434,8 @@ Proof using D_parse D_write D_nil D_size.
           split; [apply Hpe'|]. split; [apply Hpe'|]. split.
           * intros pm0 Hpm0.
             apply (parse_unit_group x pm0 (obs_pkt p1) (map obs_pkt rest) h data Hxpid Hpm0 (proj1 U6) Hwh Hbytes U9).
-          * intros c Hc. cbn zeta in Hcc'. fold x in Hcc'. rewrite Hcc' in Hc. injection Hc as <-.
-            rewrite U1 in *. cbn [length] in *.
+          * cbn zeta in Hcc'. fold x in Hcc'. rewrite U1 in *. cbn [length] in *.
+            exists (iter_inc (S (length rest)) c0). split; [unfold next_cc; rewrite Hcc'; reflexivity|].
             assert (Hl : last (map cc_of (obs_pkt p1 :: map obs_pkt rest)) 0 = cc_of pe).
             { rewrite Hlast, map_app. cbn [map]. apply last_app_single. }
             rewrite U8 in Hl. rewrite map_length in Hl. rewrite last_ccs_from in Hl by discriminate.
@@ -441,12 +444,10 @@ Proof using D_parse D_write D_nil D_size.
           destruct (aget pend y) as [dy|] eqn:Eg; [|cbn [pid_ok] in *; rewrite (Hfr' y Hy); exact Hpids].
           apply (pid_ok_keep s pl s' pl' y (Some dy) Hpids (Hfr' y Hy)).
           destruct Hpids as (Hyp & _). destruct (es_pid_not_tables y Hyp) as [H1 H2].
-          apply (cc_link_keep s (MWriteData d) s' p y Hms Hstep Hnp Haf H1 H2).
-          * cbn [muxer_pkts]. rewrite Hpk, payload_ccs_app.
-            rewrite (tables_effect_other s sr tables y Heff (inv_pat_wf _ Hms) (inv_pmt_wf _ Hms) H1 H2).
-            cbn [app]. apply (payload_ccs_other y x unit Hupid Hy).
-          * intros Hn. destruct (es_find y (ms_es s')) eqn:E; [|reflexivity]. exfalso.
-            assert (Hxn : aget pend y = None) by (apply Hfresh; [exact Hn|congruence]). congruence. }
+          apply (next_cc_keep s (MWriteData d) s' p y Hms Hstep Hnp Haf H1 H2).
+          cbn [muxer_pkts]. rewrite Hpk, payload_ccs_app.
+          rewrite (tables_effect_other s sr tables y Heff (inv_pat_wf _ Hms) (inv_pmt_wf _ Hms) H1 H2).
+          cbn [app]. apply (payload_ccs_other y x unit Hupid Hy). }
     assert (Hunit_wf : Forall mux_wf unit) by (eapply Forall_impl; [|exact Hpok]; intros q Hq; apply Hq).
     assert (Hunit_len : (1 <= length unit)%nat).
     { destruct unit; [discriminate U1|cbn; lia]. }
